@@ -2344,7 +2344,13 @@ class HedgeRisks(Algo):
             i = d.index.get_loc(target.now)
             data.append((i, d))
 
-        hedge_risk = np.array([[_get_unit_risk(s, d, i) for (i, d) in data] for s in securities])
+        # risk of one unit of each hedge instrument, as UpdateRisk measures it
+        # (unit risk x multiplier)
+        def _multiplier(name):
+            child = target.children.get(name, target._lazy_children.get(name))
+            return getattr(child, "multiplier", 1.0)
+
+        hedge_risk = np.array([[_get_unit_risk(s, d, i) * _multiplier(s) for (i, d) in data] for s in securities])
 
         # Get hedge ratios
         if self.pseudo:
